@@ -243,6 +243,42 @@ def template_programs(rng):
     return out
 
 
+def family_skeletons(rng, n):
+    """skeleton programs whose hoisted names are one NAME FAMILY (harness/props/c10_twins.py: names that tie under plausible
+    non-injective sort keys - key1 / key01 / Key1 / key_1 ...): the order sorted() gives them is under the correspondence"""
+    from harness.props import c10_twins
+    out = []
+    for k in range(n):
+        names, kinds = c10_twins.name_family(rng, {"cnd"})
+        g = SkelGen(rng, 2, tight=False)
+        g.names = list(names)
+        t = rng.choice([0, 1, 2, 3])
+        g.ty = {x: t for x in names}
+        g.ty["cnd"] = 0
+        h = max(1, len(names) // 2)
+        order = list(names)
+        rng.shuffle(order)
+        body = [g.assign(x) for x in order]
+        shape = ["if", "ifelse", "try", "wh", "for", "nested"][k % 6]
+        if shape == "if":
+            c = ("if", [body], False)
+        elif shape == "ifelse":
+            c = ("if", [body[:h], body[h:] + body[:1]], True)
+        elif shape == "try":
+            c = ("try", [body[:h], list(reversed(body))])
+        elif shape == "wh":
+            c = ("wh", [("if", [body], False)])
+        elif shape == "for":
+            c = ("for", "i1_", [("try", [body, [("a", "cnd", 0)]])])
+        else:
+            c = ("if", [[("wh", body[:h])], body], True)
+        pre = [("s", ("a", "cnd", 0))]
+        place = ["top", "def", "main"][(k // 6) % 3]
+        items = pre + ([("s", c)] if place == "top" else [("def", "fn1_", [c])] if place == "def" else [("main", [c])])
+        out.append({"items": items, "ty": dict(g.ty), "origin": "template name-family " + "+".join(kinds)})
+    return out
+
+
 def render(items, rng):
     lines = []
     cnt = [0]
@@ -815,6 +851,8 @@ def run(ctx: C.Ctx):
         tmpl = [s for s in skels if s["origin"].startswith("template")]
         rnd = [s for s in skels if not s["origin"].startswith("template")]
         skels = rng.sample(tmpl, min(len(tmpl), 110)) + rnd
+    # hoisted names that tie under plausible non-injective sort keys (key1 / key01 / Key1 ...)
+    skels += family_skeletons(rng, 90 if thorough else 24)
     for s in skels:
         s["src"] = render(s["items"], rng)
 
@@ -844,6 +882,13 @@ def run(ctx: C.Ctx):
         src, feats = device_program(rng, skeleton=sk["items"], skeleton_ty=sk["ty"])
         devs.append({"src": src, "feats": feats, "origin": "mixed", "in_guard": True, "model_ok": sk.get("model_ok")})
 
+    # near-collisions of NAMES: every sorted() site gets names that tie under plausible non-injective keys, on devices that also
+    # share their other attributes (harness/props/c10_twins.py)
+    from harness.props import c10_twins
+    for k in range(150 if thorough else 36):
+        src, feats = c10_twins.collision_program(rng, k)
+        devs.append({"src": src, "feats": feats, "origin": "collision", "in_guard": True})
+
     progs = skels + devs
     sources = [p["src"] for p in progs]
 
@@ -864,7 +909,12 @@ def run(ctx: C.Ctx):
         if not base[i]["ok"]:
             n_fail_transpile += 1
     dist["programs"] = {"skeleton": len(skels), "device": sum(1 for d in devs if d["origin"] == "device"),
-                        "mixed": sum(1 for d in devs if d["origin"] == "mixed")}
+                        "mixed": sum(1 for d in devs if d["origin"] == "mixed"), "collision": sum(1 for d in devs if d["origin"] == "collision")}
+    tie_kinds = {}
+    for d in devs:
+        for k in d["feats"].get("name_tie_kinds", []):
+            tie_kinds[k] = tie_kinds.get(k, 0) + 1
+    dist["collision_programs_by_kind_of_name_tie"] = tie_kinds
     dist["rejected_by_transpiler"] = n_fail_transpile
     for d in devs:
         if not d["ref"]["ok"]:
@@ -1152,9 +1202,21 @@ def run(ctx: C.Ctx):
     evaluations += ev_roles
     dist["name_collisions"] = dist_roles
 
+    # ------------------------------------------------------------------ property oracle 4: twin families (one call in every spelling
+    # of the same values / at every depth) in every rotation in one process; correspondence 5: the emitter's literal helpers
+    ev_tw, nt_tw, dist_tw = c10_twins.run_twins(ctx, C, seeds[0])
+    evaluations += ev_tw
+    dist["twin_families"] = dist_tw
+    n_helper = 0
+    if have_model:
+        n_helper, dist_h = c10_twins.run_helper_correspondence(ctx, C, seeds[0])
+        dist["emitter_literal_helpers"] = dist_h
+
     feats_total = {}
     for d in devs:
         for k, v in d["feats"].items():
+            if not isinstance(v, (int, bool)):
+                continue
             feats_total[k] = feats_total.get(k, 0) + (1 if v else 0)
     dist["device_programs_with_feature"] = feats_total
     dist["hash_seeds"] = seeds
@@ -1165,9 +1227,9 @@ def run(ctx: C.Ctx):
     dist["origins"] = origins
     multi = sum(1 for d in devs if max(len(v) for v in d.get("sorted_obs", {"x": []}).values() or [[]]) >= 2)
     ctx.coverage.update({
-        "evaluations": evaluations + n_corr + n_prom + n_sorted,
+        "evaluations": evaluations + n_corr + n_prom + n_sorted + n_helper,
         "distinct_nontrivial": len({p["src"] for p in progs if p["origin"] != "device"}
-                                   & {s["src"] for s in skels if sum(1 for _ in _iter_hoists(s.get("model0", {}))) > 0}) + multi + n_prom + nt_roles,
+                                   & {s["src"] for s in skels if sum(1 for _ in _iter_hoists(s.get("model0", {}))) > 0}) + multi + n_prom + nt_roles + nt_tw,
         "rule": "skeleton programs: templates (k = 0..6 names first assigned in an if / if-else / if-elif-else / while / for / try body, at top level, in a function, in the main loop, nested) + seeded random nested programs; device programs: random subsets of every device class with 0..6 instances, callbacks, lists, multi-signature functions, tuple swaps; mixed = both. Every program is transpiled in one subprocess per hash seed and per dictated set order (the name `set` of parser.py/emitter.py bound to a subclass iterating sorted / reverse sorted / in a keyed pseudo-random order), then in one process twice in a row, in reverse order between unrelated programs, shuffled, and (a sample) in fresh processes; sha256 of the text is compared. Name collisions (c10_roles.py): for every ordered pair (a, b) of 25 roles an identifier can have, with a name of its own, the sessions `A B B'` / `all A, then B B' reversed` against `B B'` alone (A = name in role a, B = same name in role b with all probes of b, B' = B + one probe of a); 60 (240) pool programs giving 2-4 of 6 pool names random roles, in 3 (6) orders in one process and after a module reset; parse/emit interleavings (p_i p_j e_j e_i, p_i p_j e_i e_j e_i, p_i e_i e_i, p_i t_j e_i); 4 concurrent threads; 220 (900) + 60 device-registry programs of the DevSession fragment in two orders, compared with transl_dev. Half of the random skeleton programs and most templates put several new names into one branch (the region the guard of the repaired finding F-C10-promotion-order used to exclude; counted in distribution). Non-trivial = programs that hoist at least one declaration, every role pair, pool program and accepted device-registry program, device programs whose sorted sites have >= 2 elements, and every dictated-order promotion case.",
         "samples": [skels[0]["src"], skels[len(skels) // 2]["src"], devs[0]["src"][:1500]],
         "distribution": dist,
